@@ -73,9 +73,17 @@ theorem resolveDefault_fixed {K : Caster V} {ty : Ty} {v : V}
     simp [ht, hp]
   · simp [ht]
 
+/-- the DECIMAL defaults are guarded by `is None` (`Gen.Persist.decimalFills`): a declared 0 stays -/
+theorem decimalGuard_precision (p : Option Nat) : decimalGuard "precision" p = p.isNone := by
+  cases p <;> rfl
+
+theorem decimalGuard_scale (s : Option Nat) : decimalGuard "scale" s = s.isNone := by
+  cases s <;> rfl
+
 theorem decimalPrecision_fixed {ty : Ty} {p : Option Nat} (h : isDecimal ty = true → p.isSome = true) :
     decimalPrecision ty p = p := by
   unfold decimalPrecision
+  rw [decimalGuard_precision]
   cases hd : isDecimal ty with
   | false => simp
   | true =>
@@ -87,6 +95,7 @@ theorem decimalPrecision_fixed {ty : Ty} {p : Option Nat} (h : isDecimal ty = tr
 theorem decimalScale_fixed {ty : Ty} {p s : Option Nat} (h : isDecimal ty = true → s.isSome = true) :
     decimalScale ty p s = s := by
   unfold decimalScale
+  rw [decimalGuard_scale]
   cases hd : isDecimal ty with
   | false => simp
   | true =>
@@ -163,6 +172,7 @@ theorem resolveDefault_establishes {K : Caster V}
 theorem decimal_defaults_some (ty : Ty) (p s : Option Nat) (h : isDecimal ty = true) :
     (decimalPrecision ty p).isSome = true ∧ (decimalScale ty (decimalPrecision ty p) s).isSome = true := by
   unfold decimalPrecision decimalScale
+  simp only [decimalGuard_precision, decimalGuard_scale]
   cases p <;> cases s <;> simp [h]
 
 theorem init_establishes (K : Caster V)
@@ -220,20 +230,98 @@ theorem base_ne_missing : ∀ m ∈ TypeName.baseTypes, TypeName.valueOf m ≠ T
 theorem disp_resolves : ∀ n ∈ dispositions.map Prod.fst, resolveDisp (some (writeDisp n)) = .ok (some n) := by
   decide
 
+/-- the fills of the type-literal block are guarded by `is None` (`Gen.Persist.initFills`): a given value stays,
+whatever it is (0 included) -/
+theorem fill_some {α : Type} (attr : String) (falsy : α → Bool) (parsed : String → Option α) (v : α)
+    (h : attr = "element_type" ∨ attr = "length" ∨ attr = "precision" ∨ attr = "scale") :
+    fill attr falsy parsed (some v) = some v := by
+  rcases h with rfl | rfl | rfl | rfl <;> rfl
+
 theorem resolveType_written {m : Str} (hm : m ∈ TypeName.baseTypes) (e : Option RawTy) (l p s : Option Nat)
     (hA : m = TypeName.litArray → e.isSome = true) :
     resolveType (.text (TypeName.valueOf m)) e l p s = .ok ⟨.member m, e, l, p, s⟩ := by
   unfold resolveType
   simp only [fromNameRaw, base_resolves m hm]
-  have he : e.orElse (fun _ => (if m = TypeName.litArray then some TypeName.litVarchar else none).map RawTy.member) = e := by
+  have he : fill "element_type" rawTyFalsy
+      (elemField { ty := .member m, elem := if m = TypeName.litArray then some TypeName.litVarchar else none }) e = e := by
     cases e with
     | some x => rfl
     | none =>
       by_cases h : m = TypeName.litArray
       · have := hA h; simp at this
-      · simp [h]
+      · show elemField _ "elem" = none
+        simp [elemField, h]
   simp only [he]
   cases l <;> cases p <;> cases s <;> rfl
+
+/-! #### `FlatColumn.from_dict`'s statements on a written dictionary -/
+
+/-- what the second statement does to the element type: the value of `_MISSING_TYPE` becomes the member -/
+def restoreElem (e : Option (Option RawTy)) : Option (Option RawTy) :=
+  match e with
+  | some (some t) => if tyEqValue t missingName then some (some (.member missingName)) else e
+  | _ => e
+
+def typeIs (d : Raw V) (m : Str) : Bool :=
+  match d.type with
+  | some t => tyEqValue t m
+  | none => false
+
+def elemIsNull (d : Raw V) : Bool :=
+  match d.element_type with
+  | some none => true
+  | _ => false
+
+/-- `from_dict`'s three statements in closed form (checked against `Gen.Persist.fromDictRules` by unfolding) -/
+theorem prepare_eq (d : Raw V) : prepare d =
+    (let d1 : Raw V := if typeIs d missingName then { d with type := some (.member missingName) } else d
+     let d2 : Raw V := { d1 with element_type := restoreElem d1.element_type }
+     if typeIs d2 TypeName.litArray && elemIsNull d2 then { d2 with type := some (.member TypeName.litArray) } else d2) := by
+  have h0 : prepare d = applyRule (applyRule (applyRule d
+      ([("eqValue", "type", "_MISSING_TYPE")], "type", "_MISSING_TYPE"))
+      ([("eqValue", "element_type", "_MISSING_TYPE")], "element_type", "_MISSING_TYPE"))
+      ([("eqValue", "type", "ARRAY"), ("present", "element_type", ""), ("isNone", "element_type", "")], "type", "ARRAY") := rfl
+  have hmn : "_MISSING_TYPE".toList = missingName := by decide
+  have har : "ARRAY".toList = TypeName.litArray := by decide
+  have h1 : ∀ d : Raw V, applyRule d ([("eqValue", "type", "_MISSING_TYPE")], "type", "_MISSING_TYPE")
+      = if typeIs d missingName then { d with type := some (.member missingName) } else d := by
+    intro d
+    simp only [applyRule, List.all_cons, List.all_nil, Bool.and_true, evalCond, assignMember, typeIs, hmn]
+    rfl
+  have h2 : ∀ d : Raw V, applyRule d ([("eqValue", "element_type", "_MISSING_TYPE")], "element_type", "_MISSING_TYPE")
+      = { d with element_type := restoreElem d.element_type } := by
+    intro d
+    cases d with
+    | mk n df t e =>
+      cases e with
+      | none => rfl
+      | some e =>
+        cases e with
+        | none => rfl
+        | some t' =>
+          by_cases h : tyEqValue t' missingName = true
+          · simp [applyRule, evalCond, assignMember, restoreElem, h, hmn]
+          · simp [applyRule, evalCond, restoreElem, h, hmn]
+  have h3 : ∀ d : Raw V, applyRule d
+      ([("eqValue", "type", "ARRAY"), ("present", "element_type", ""), ("isNone", "element_type", "")], "type", "ARRAY")
+      = if typeIs d TypeName.litArray && elemIsNull d then { d with type := some (.member TypeName.litArray) } else d := by
+    intro d
+    cases d with
+    | mk n df t e =>
+      cases e with
+      | none => simp [applyRule, evalCond, elemIsNull]
+      | some e =>
+        cases e with
+        | none =>
+          simp only [applyRule, List.all_cons, List.all_nil, Bool.and_true, evalCond, elemIsNull, typeIs, assignMember, har,
+            Option.isSome_some]
+          rfl
+        | some t' => simp [applyRule, evalCond, elemIsNull]
+  rw [h0, h1, h2, h3]
+
+theorem base_value_array : ∀ m ∈ persistableTypes,
+    (TypeName.valueOf m == TypeName.valueOf TypeName.litArray) = (m == TypeName.litArray) := by
+  decide
 
 /-- the element type as `from_dict` hands it to the constructor -/
 def restoredElem (e : Option Ty) : Option RawTy :=
@@ -244,7 +332,9 @@ def restoredElem (e : Option Ty) : Option RawTy :=
 theorem restoreElem_written (e : Option Ty) :
     restoreElem (some (e.map writeTy)) = some (restoredElem e) := by
   unfold restoredElem restoreElem
-  split <;> rfl
+  cases e with
+  | none => rfl
+  | some t => simp only [Option.map_some]; split <;> rfl
 
 theorem resolveElem_written (e : Option Ty)
     (h : ∀ t, e = some t → ∃ m, t = .member m ∧ m ∈ persistableTypes) :
@@ -256,21 +346,18 @@ theorem resolveElem_written (e : Option Ty)
     simp only [persistableTypes, List.mem_cons] at hm
     rcases hm with rfl | hm
     · rfl
-    · have hne : (some (some (RawTy.text (TypeName.valueOf m))) =
-          some (some (RawTy.text (TypeName.valueOf missingName)))) = False := by
-        simp only [Option.some.injEq, RawTy.text.injEq, eq_iff_iff, iff_false]
-        exact base_ne_missing m hm
-      simp [restoredElem, restoreElem, writeTy, hne, resolveElem, fromNameRaw, base_resolves m hm]
+    · have hne : (TypeName.valueOf m == TypeName.valueOf missingName) = false := by
+        simpa using base_ne_missing m hm
+      have hw : writeTy (.member m) = .text (TypeName.valueOf m) := rfl
+      simp [restoredElem, restoreElem, hw, tyEqValue, hne, resolveElem, fromNameRaw, base_resolves m hm]
 
 theorem restoredElem_isSome (e : Option Ty) (h : e.isSome = true) : (restoredElem e).isSome = true := by
   cases e with
   | none => simp at h
   | some t =>
-    unfold restoredElem restoreElem
-    by_cases hc : (some (Option.map writeTy (some t)) : Option (Option RawTy)) =
-        some (some (RawTy.text (TypeName.valueOf missingName)))
-    · rw [if_pos hc]; rfl
-    · rw [if_neg hc]; rfl
+    by_cases h : tyEqValue (writeTy t) missingName = true <;> simp [restoredElem, restoreElem, h]
+
+theorem restoredElem_none : restoredElem none = none := rfl
 
 theorem resolveDisp_written (d : Option String) (h : ∀ n, d = some n → n ∈ dispositions.map Prod.fst) :
     resolveDisp (d.map writeDisp) = .ok d := by
@@ -284,37 +371,67 @@ theorem colFromDict_written (K : Caster V) (fresh : String) (c : Col V)
     (hdec : isDecimal c.type = true → c.precision.isSome = true ∧ c.scale.isSome = true)
     (hp : Persistable c) (dv : V) (hdv : resolveDefault K c.type dv = .ok c.default) :
     colFromDict K fresh { colToDict c with default := some dv } = .ok c := by
-  obtain ⟨⟨m, hty, hm⟩, helem, harr, hdisp⟩ := hp
+  obtain ⟨⟨m, hty, hm⟩, helem, hdisp⟩ := hp
   rw [colToDict_eq]
   unfold colFromDict
+  rw [prepare_eq]
   have he := resolveElem_written c.element_type helem
   have hd := resolveDisp_written c.disposition hdisp
+  have harr := base_value_array m hm
   simp only [persistableTypes, List.mem_cons] at hm
   rcases hm with rfl | hm
-  · -- untyped
+  · -- untyped: the first statement hands the member over
     have hw : writeTy c.type = .text (TypeName.valueOf missingName) := by rw [hty]; rfl
-    simp only [hw, if_true, restoreElem_written]
+    have t1 : tyEqValue (.text (TypeName.valueOf missingName)) missingName = true := by decide
+    have t2 : tyEqValue (.member missingName) TypeName.litArray = false := by decide
+    simp only [typeIs, hw, t1, t2, if_true, restoreElem_written, Bool.false_and, Bool.false_eq_true, if_false]
     refine init_normalised K fresh c hdec _ _ _ (.member missingName) dv rfl ?_ he hd hdv
     rw [hty]; rfl
   · have hw : writeTy c.type = .text (TypeName.valueOf m) := by rw [hty]; rfl
-    have hne : (some (RawTy.text (TypeName.valueOf m)) = some (RawTy.text (TypeName.valueOf missingName))) = False := by
-      simp only [Option.some.injEq, RawTy.text.injEq, eq_iff_iff, iff_false]
-      exact base_ne_missing m hm
-    simp only [hw, hne, if_false, restoreElem_written]
-    refine init_normalised K fresh c hdec _ _ _ (.text (TypeName.valueOf m)) dv rfl ?_ he hd hdv
-    rw [hty]
-    apply resolveType_written hm
-    intro hA
-    exact restoredElem_isSome _ (harr (by rw [hty, hA]))
+    have t1 : tyEqValue (.text (TypeName.valueOf m)) missingName = false := by
+      simpa [tyEqValue] using base_ne_missing m hm
+    have t2 : tyEqValue (.text (TypeName.valueOf m)) TypeName.litArray = (m == TypeName.litArray) := harr
+    simp only [typeIs, hw, t1, t2, Bool.false_eq_true, if_false, restoreElem_written]
+    cases hE : c.element_type with
+    | none =>
+      simp only [restoredElem_none, elemIsNull, Bool.and_true]
+      by_cases hA : m = TypeName.litArray
+      · -- a bare ARRAY: the third statement hands the member over, so the element type is not defaulted
+        have t3 : (m == TypeName.litArray) = true := by simp [hA]
+        simp only [t3, if_true]
+        refine init_normalised K fresh c hdec _ none _ (.member TypeName.litArray) dv ?_ ?_ ?_ hd hdv
+        · rfl
+        · rw [hty, hA]; rfl
+        · rw [hE]; rfl
+      · have t3 : (m == TypeName.litArray) = false := by simp [hA]
+        simp only [t3, Bool.false_eq_true, if_false]
+        refine init_normalised K fresh c hdec _ none _ (.text (TypeName.valueOf m)) dv ?_ ?_ ?_ hd hdv
+        · rfl
+        · rw [hty]
+          exact resolveType_written hm _ _ _ _ (fun h => absurd h hA)
+        · rw [hE]; rfl
+    | some t =>
+      have hs := restoredElem_isSome (some t) rfl
+      cases hr : restoredElem (some t) with
+      | none => rw [hr] at hs; cases hs
+      | some x =>
+        simp only [elemIsNull, Bool.and_false, Bool.false_eq_true, if_false]
+        rw [hE, hr] at he
+        refine init_normalised K fresh c hdec _ (some x) _ (.text (TypeName.valueOf m)) dv ?_ ?_ ?_ hd hdv
+        · rfl
+        · rw [hty]
+          exact resolveType_written hm _ _ _ _ (fun _ => rfl)
+        · rw [hE]; exact he
 
 theorem mapE_written (K : Caster V) (fresh : String) (cs : List (Col V))
     (h : ∀ c ∈ cs, Constructed K c ∧ Persistable c) :
-    mapE (colFromDict K fresh) (cs.map colToDict) = .ok cs := by
+    mapE (load columnLoader K fresh) (cs.map colToDict) = .ok cs := by
   induction cs with
   | nil => rfl
   | cons c cs ih =>
     have hc := h c (List.mem_cons_self)
-    have h1 : colFromDict K fresh (colToDict c) = .ok c := by
+    have h1 : load columnLoader K fresh (colToDict c) = .ok c := by
+      show colFromDict K fresh (colToDict c) = .ok c
       have := colFromDict_written K fresh c hc.1.2 hc.2 c.default (resolveDefault_fixed hc.1.1)
       rw [colToDict_eq] at this ⊢
       exact this
@@ -344,6 +461,7 @@ theorem jsonRoundTrip_eq (K : Caster V) (fresh : String) (c : Col V)
     rfl
   unfold jsonRoundTrip
   simp only [h1]
+  show colFromDict K fresh { colToDict c with default := some j } = .ok c
   exact colFromDict_written K fresh c hc.2 hp j hdv
 
 /-! ### decidable forms of the hypotheses (for concrete instances) -/
@@ -356,15 +474,14 @@ def persistableB (c : Col V) : Bool :=
     | none => true
     | some (.member e) => persistableTypes.contains e
     | some .zero => false)
-  && (c.type != .member TypeName.litArray || c.element_type.isSome)
   && (match c.disposition with
     | none => true
     | some n => (dispositions.map Prod.fst).contains n)
 
 theorem persistable_of_B (c : Col V) (h : persistableB c = true) : Persistable c := by
   simp only [persistableB, Bool.and_eq_true] at h
-  obtain ⟨⟨⟨h1, h2⟩, h3⟩, h4⟩ := h
-  refine ⟨?_, ?_, ?_, ?_⟩
+  obtain ⟨⟨h1, h2⟩, h4⟩ := h
+  refine ⟨?_, ?_, ?_⟩
   · cases hty : c.type with
     | zero => simp [hty] at h1
     | member m => exact ⟨m, rfl, by simpa [hty] using h1⟩
@@ -373,8 +490,6 @@ theorem persistable_of_B (c : Col V) (h : persistableB c = true) : Persistable c
     cases e with
     | zero => simp at h2
     | member m => exact ⟨m, rfl, by simpa using h2⟩
-  · intro hA
-    simpa [hA] using h3
   · intro n hn
     rw [hn] at h4
     simpa using h4
@@ -410,7 +525,7 @@ theorem typeCode_member_isSome (d : TypeName.Desc) (m : Str) (h : d.ty = .member
   split <;> rfl
 
 theorem describeCol_isSome (c : Col V) (hp : Persistable c) : (describeCol c).isSome = true := by
-  obtain ⟨⟨m, hty, _⟩, helem, _, _⟩ := hp
+  obtain ⟨⟨m, hty, _⟩, helem, _⟩ := hp
   unfold describeCol
   cases he : c.element_type with
   | none =>
